@@ -49,6 +49,14 @@ package template
 //@     invariant attrstop(s, j) == attrstop(s, i)
 //@     decreases len(s) - j
 
+//@ func asciiToLower(s []byte) (r string)
+//@   serves C01 C02 C04 C08
+//@   ensures spec: seqeq(r, lowerupto(s, len(s)))
+//@   loop 1
+//@     invariant 0 <= i && i <= len(s) && len(b) == i
+//@     invariant seqeq(seq(b), lowerupto(s, i))
+//@     decreases len(s) - i
+
 //@ func eatTagName(s []byte, i int) (r int, e element)
 //@   serves C01 C02 C04 C08
 //@   requires 0 <= i && i <= len(s)
@@ -84,7 +92,7 @@ package template
 //@   ensures closevoid: SPECIALSAGREE(c) && skipws(s, 0) < len(s) && s[skipws(s, 0)] == '>' && len(c.element.name) > 0 && isvoid(c.element.name) ==> len(r.element.name) == 0 && len(r.element.names) == 0 && len(r.scriptType) == 0 && len(r.linkRel) == 0
 //@   ensures closekeep: SPECIALSAGREE(c) && skipws(s, 0) < len(s) && s[skipws(s, 0)] == '>' && !(len(c.element.name) > 0 && isvoid(c.element.name)) ==> same(r.element, c.element) && same(r.scriptType, c.scriptType) && same(r.linkRel, c.linkRel)
 //@   ensures badname: skipws(s, 0) < len(s) && s[skipws(s, 0)] != '>' && attrstop(s, skipws(s, 0)) <= skipws(s, 0) ==> r.state == stateError && !isnil(r.err) && n == len(s)
-//@   ensures attr: skipws(s, 0) < len(s) && s[skipws(s, 0)] != '>' && attrstop(s, skipws(s, 0)) > skipws(s, 0) ==> n == attrstop(s, skipws(s, 0)) && r.state == ite(n == len(s), stateAttrName, stateAfterName) && same(r.element, c.element) && seqeq(r.attr.name, lower(sub(s, skipws(s, 0), n))) && same(r.linkRel, c.linkRel) && r.delim == delimNone && isnil(r.err) && len(r.attr.value) == 0 && !r.attr.ambiguousValue && len(r.attr.names) == 0 && len(r.scriptType) == 0
+//@   ensures attr: skipws(s, 0) < len(s) && s[skipws(s, 0)] != '>' && attrstop(s, skipws(s, 0)) > skipws(s, 0) ==> n == attrstop(s, skipws(s, 0)) && r.state == ite(n == len(s), stateAttrName, stateAfterName) && same(r.element, c.element) && seqeq(r.attr.name, lowerupto(sub(s, skipws(s, 0), n), n - skipws(s, 0))) && same(r.linkRel, c.linkRel) && r.delim == delimNone && isnil(r.err) && len(r.attr.value) == 0 && !r.attr.ambiguousValue && len(r.attr.names) == 0 && len(r.scriptType) == 0
 //@   loop 1
 //@     invariant forall(k, 0, rangeidx, isspecial(at(c.element.names, k)) && isspecial(c.element.name) ==> seqeq(at(c.element.names, k), c.element.name))
 
